@@ -1112,7 +1112,7 @@ def check(run):
         "one evaluation = one run of the real BlockOptimizer+z3 on (instance, option set, criterion) compared with the "
         "Coq-computed optimum, or one soft-constraint list / bounds dictionary compared with the model; non-trivial = "
         "realizable instance with init_progr_len >= 2 (distinct by canonical JSON)" % max([i["sfs"]["init_progr_len"] for i in inst] or [0]))
-    run.cov["exhaustive"] = {
+    run.cov["exhaustive_part"] = {
         "what": "for every instance Coq enumerates (vm_compute of Model/Soft.v:opt3) EVERY sequence of length <= init_progr_len over "
                 "the alphabet POP, DUP1..DUP(sk-1), SWAP1..SWAP(sk-1), all user-instruction ids (NOP = padding) that runs "
                 "within max_sk_sz and realizes the specification; completeness and minimality are theorems "
